@@ -271,11 +271,12 @@ pub fn profile_for(id: &str, rng: &mut Rng) -> Profile {
                 // uncommitted) pages are written back before commit
                 p.text_cols = true;
                 p.pad_text = 450;
-                p.max_inserts_per_table = 100;
+                p.max_inserts_per_table = 400;
                 p.max_tables = 2;
-                p.max_events = rng.range(50, 90) as u32;
-                p.min_events = 25;
-                p.max_events = rng.range(30, 60) as u32;
+                // (enough rows to outgrow 24-32 pages: the probe `cache_evictions` stood at zero while these
+                // histories had 30-60 events)
+                p.min_events = 70;
+                p.max_events = rng.range(80, 120) as u32;
                 p.updates = false;
                 p.small_cache = true;
                 p.w_flush = 0;
